@@ -173,8 +173,10 @@ func decodeScalar(data []byte, oid int) interface{} {
 	// Integers
 	case OidInt2:
 		return i16(data, 0)
-	case OidInt4, OidXid, OidCid:
+	case OidInt4:
 		return i32(data, 0)
+	case OidXid, OidCid:
+		return u32(data, 0) // transaction and command ids are unsigned 32-bit
 	case OidInt8:
 		return i64(data, 0)
 	case OidOid:
